@@ -146,6 +146,9 @@ let run_case (suite : string) (r : rd) : unit =
   | "htmlesc" -> let t = rstr r in let e = escape_html t in pstr e; pstr (unescape_html e)
   | "lines" -> plist pstr (lines (rstr r))
   | "scan" -> let d = rstr r in let cs = rlist (fun r -> nat_of_int (rint r)) r in plist pstr (scan d cs)
+  | "readn" ->
+    let n = nat_of_int (rint r) in let d = rstr r in let cs = rlist (fun r -> nat_of_int (rint r)) r in
+    (match read_n n d cs with RnOk (blk, _, _) -> pint 0; pstr blk | RnEOF -> pint 1 | RnShort -> pint 2)
   | "trimspace" -> pstr (trim_space (rstr r))
   | "atoi" -> poptz (atoi (rstr r))
   | _ -> failwith ("unknown suite " ^ suite)
